@@ -180,7 +180,9 @@ def sym_sender_exception(lazy, via, when):
 
 # ---------------------------------------------------------------------------- processor level
 LAY = ctx.Layout([0, 100, 200, 300], [[(1, 5, 0), (20, 30, 1)], [(110, 120, 2)], [(210, 215, 3), (250, 260, 4)]])
-STAGES = ["source", "mid", "multi", "loader", "saver_target", "saver_side", "consumer"]
+STAGES = ["source", "mid", "multi", "loader", "saver_target", "saver_side", "consumer", "exhaust"]
+# "exhaust": a plugin that computes only once all its input has arrived fails - i.e. AFTER the source is exhausted and
+# the savers of the upstream data types have been closed
 
 
 class Boom(Exception):
@@ -205,6 +207,13 @@ def _pipeline(stage, j, obj, L, fe_classes):
                 raise ZeroDivisionError("multi-output plugin fails")
             return orig(self, **kw)
         P[2].compute = compute
+    if stage == "exhaust":
+        Ex = ctx.P_exhaust("ex", "sb", obj)
+
+        def compute_ex(self, **kw):
+            raise ZeroDivisionError("exhaust plugin fails after all input was consumed")
+        Ex.compute = compute_ex
+        P.append(Ex)
     if stage == "loader":
         # src is already stored; reading its j-th chunk fails
         stA = ctx.make_context([P[0]], storage=[fe])
@@ -239,7 +248,7 @@ def sym_failure(stage, proc="single", lazy=True, policy="lowest", dev=0, sym_lay
     """Failure at chunk j (chosen by the solver) of the given stage; target sb, side outputs saved."""
     import strax
 
-    j = core.concretize(fresh_int("j", 0, 2))
+    j = core.concretize(fresh_int("j", 0, 2 if stage != "exhaust" else 0))
     obj = sym_layout
     if sym_layout:
         S = fresh_int("S", 0, H.T_MAX); E = fresh_int("E", 0, H.T_MAX)
@@ -253,7 +262,8 @@ def sym_failure(stage, proc="single", lazy=True, policy="lowest", dev=0, sym_lay
 
     def consume():
         nonlocal exc
-        it = st.get_iter(RUN, "sb", processor="single_thread" if proc == "single" else "threaded_mailbox",
+        it = st.get_iter(RUN, "ex" if stage == "exhaust" else "sb",
+                         processor="single_thread" if proc == "single" else "threaded_mailbox",
                          progress_bar=False)
         try:
             for n, c in enumerate(it):
